@@ -931,6 +931,12 @@ impl<'a> Ev<'a> {
                     let outs2 = self.eval_expr(s, &ix.index);
                     then(outs2, |mut s2, idx| {
                         let site = self.site(ix.span());
+                        if let (Val::Array(vs) | Val::List(vs), Val::Int(i)) = (&base, &idx) {
+                            if !vs.iter().any(|x| matches!(x, Val::Rep { .. })) && (*i < 0 || *i as usize >= vs.len()) {
+                                s2.events.push(Event::Panic { site: format!("{site} index {i} out of bounds of {} elements", vs.len()) });
+                                return vec![(s2, Flow::Div)];
+                            }
+                        }
                         s2.events.push(Event::Index { place: base.short(), idx: idx.short(), site });
                         let r = match (&base, &idx) {
                             (Val::Array(vs), Val::Int(i)) | (Val::List(vs), Val::Int(i)) if (*i as usize) < vs.len() && !matches!(vs[*i as usize], Val::Rep { .. }) => vs[*i as usize].clone(),
@@ -1772,6 +1778,10 @@ impl<'a> Ev<'a> {
                 let vt = match ty { Ty::Named(_, a) if a.len() > 1 => a[1].clone(), _ => Ty::Unknown };
                 Val::Sym { ty: Ty::Named("Option".into(), vec![vt]), path: format!("{path}[{}]", args.first().map(|a| a.short()).unwrap_or_default()) }
             }
+            ("unwrap" | "expect", Val::Sym { ty, path }) if path.contains(".named[") && path.ends_with(".ident") => {
+                // syn: every field of `Fields::Named` has an identifier
+                Val::Sym { ty: ty.arg0(), path: format!("{path}.?") }
+            }
             ("unwrap" | "expect", _) => {
                 let site = self.site(sp);
                 st.events.push(Event::Panic { site });
@@ -1824,7 +1834,15 @@ impl<'a> Ev<'a> {
             }
             "bail" => {
                 let site = self.site(sp);
-                vec![(st, Flow::Ret(Val::err(Val::Str(format!("bail@{site}")))))]
+                // keep what the message is formatted from (the dump path formats the generated tokens)
+                use syn::punctuated::Punctuated;
+                let mut deps = vec![Val::Str(format!("bail@{site}"))];
+                if let Ok(exprs) = syn::parse::Parser::parse2(Punctuated::<syn::Expr, syn::Token![,]>::parse_terminated, mac.tokens.clone()) {
+                    let es: Vec<&syn::Expr> = exprs.iter().skip(1).filter(|e| !matches!(e, syn::Expr::Infer(_))).collect();
+                    let outs = self.eval_args(st.clone(), &es);
+                    if outs.len() == 1 { if let Ok(vs) = &outs[0].1 { deps.extend(vs.iter().cloned()); } }
+                }
+                vec![(st, Flow::Ret(Val::err(Val::opaque("bail", deps))))]
             }
             "write" => {
                 use syn::punctuated::Punctuated;
